@@ -270,13 +270,31 @@ type posKey struct {
 
 var generatedRe = regexp.MustCompile(`^// Code generated .* DO NOT EDIT\.$`)
 
-func mustReport(pkg *packages.Package) ([]Obj, string) {
+// isCgo: the package imports "C".  go/packages hands out the cgo-processed files (CompiledGoFiles, generated
+// into the build cache, import "C" already removed), so the syntax alone does not show it.
+func isCgo(pkg *packages.Package) bool {
 	for _, f := range pkg.Syntax {
 		for _, imp := range f.Imports {
 			if imp.Path.Value == `"C"` {
-				return nil, "cgo"
+				return true
 			}
 		}
+	}
+	src := map[string]bool{}
+	for _, f := range pkg.GoFiles {
+		src[f] = true
+	}
+	for _, f := range pkg.CompiledGoFiles {
+		if !src[f] {
+			return true
+		}
+	}
+	return false
+}
+
+func mustReport(pkg *packages.Package) ([]Obj, string) {
+	if isCgo(pkg) {
+		return nil, "cgo"
 	}
 	if pkg.PkgPath == "runtime" || strings.HasPrefix(pkg.PkgPath, "runtime/") {
 		return nil, "runtime"
@@ -632,7 +650,7 @@ var unusedImportRe = regexp.MustCompile(`^"([^"]+)" imported (as \S+ )?and not u
 
 func dropImportAt(files []*ast.File, fset *token.FileSet, pos token.Pos) bool {
 	for _, f := range files {
-		for _, decl := range f.Decls {
+		for di, decl := range f.Decls {
 			gd, ok := decl.(*ast.GenDecl)
 			if !ok || gd.Tok != token.IMPORT {
 				continue
@@ -641,6 +659,11 @@ func dropImportAt(files []*ast.File, fset *token.FileSet, pos token.Pos) bool {
 				is := s.(*ast.ImportSpec)
 				if is.Pos() <= pos && pos <= is.End() {
 					gd.Specs = append(gd.Specs[:i:i], gd.Specs[i+1:]...)
+					if len(gd.Specs) == 0 {
+						// the last import of the declaration: an import declaration without specs is not a valid AST
+						// (GenDecl.End panics for the unparenthesised form), so the declaration goes as well
+						f.Decls = append(f.Decls[:di:di], f.Decls[di+1:]...)
+					}
 					for j, im := range f.Imports {
 						if im == is {
 							f.Imports = append(f.Imports[:j:j], f.Imports[j+1:]...)
@@ -694,13 +717,9 @@ func typeCheck(pkg *packages.Package, files []*ast.File) []types.Error {
 
 func deleteAndCheck(pkg *packages.Package, reported []Obj, wantSource bool) DelResult {
 	res := DelResult{ID: pkg.ID, Reported: len(reported)}
-	for _, f := range pkg.Syntax {
-		for _, imp := range f.Imports {
-			if imp.Path.Value == `"C"` {
-				res.Unsupported = append(res.Unsupported, "cgo package")
-				return res
-			}
-		}
+	if isCgo(pkg) {
+		res.Unsupported = append(res.Unsupported, "cgo package")
+		return res
 	}
 	byPos := map[posKey]types.Object{}
 	for id, o := range pkg.TypesInfo.Defs {
